@@ -1,6 +1,7 @@
 package main
 
 import (
+	"strconv"
 	"bufio"
 	"bytes"
 	"encoding/json"
@@ -159,6 +160,8 @@ func runJobs(jobs []*Job, nworkers int, progress bool) ([]*JobResult, error) {
 	}
 	var firstErr error
 	var wg sync.WaitGroup
+	rootStart := map[int]time.Time{}
+	globalDeadline := time.Now().Add(checkBudget())
 	mods := []string{}
 	for m := range queues {
 		mods = append(mods, m)
@@ -250,8 +253,25 @@ func runJobs(jobs []*Job, nworkers int, progress bool) ([]*JobResult, error) {
 					}
 					job := queues[mod][0]
 					queues[mod] = queues[mod][1:]
+					if _, ok := rootStart[job.Root]; !ok {
+						rootStart[job.Root] = time.Now()
+					}
+					rootAge := time.Since(rootStart[job.Root])
 					mu.Unlock()
 					var res *JobResult
+					// budgets: a root job and all the sub-jobs split off it share 2x the root's time limit (a broken tree can
+					// make a harness explode; the check must still end), and the whole check has a wall budget
+					budget := time.Duration(2*job.TimeoutS) * time.Second
+					if time.Now().After(globalDeadline) || (job.TimeoutS > 0 && rootAge > budget) {
+						res = &JobResult{ID: job.ID, Harness: job.Harness, Module: mod, Params: job.Params,
+							Inconclusive: map[string]int{"time budget exhausted before this subtree was explored": 1}, Ended: map[string]int{}}
+					} else if job.TimeoutS > 0 && job.Prefixes != nil {
+						if left := int((budget - rootAge).Seconds()); left < job.TimeoutS {
+							jc := *job
+							jc.TimeoutS = left + 1
+							job = &jc
+						}
+					}
 					if w == nil {
 						var err error
 						w, err = startWorker(mod)
@@ -310,6 +330,21 @@ func runJobs(jobs []*Job, nworkers int, progress bool) ([]*JobResult, error) {
 	}
 	wg.Wait()
 	return results, firstErr
+}
+
+// checkBudget: wall budget of one check run (VERIF_BUDGET_S overrides; default 20 min quick, 5 h thorough).
+var checkTier = "quick"
+
+func checkBudget() time.Duration {
+	if v := os.Getenv("VERIF_BUDGET_S"); v != "" {
+		if n, err := strconv.Atoi(v); err == nil && n > 0 {
+			return time.Duration(n) * time.Second
+		}
+	}
+	if checkTier == "thorough" {
+		return 5 * time.Hour
+	}
+	return 20 * time.Minute
 }
 
 func unionSorted(a, b []string) []string {
@@ -504,6 +539,7 @@ func runCheck(prop, tier string) int {
 		fmt.Fprintf(os.Stderr, "no check registered for %s\n", prop)
 		return 2
 	}
+	checkTier = tier
 	known := loadKnown(prop)
 	var knownIDs []string
 	knownDesc := map[string]string{}
